@@ -34,7 +34,9 @@ class SProducer:
                 self.R.count("universe_skipped")
                 continue
             try:
-                U = G.Universe(u, spell=rng.randrange(4))
+                # mappings are spelled Dict / dict, never Mapping: with no_copy the serializer returns a dict as is only when the
+                # annotation is a dict subclass, and the model (Ser/Model.v) has the Dict behaviour only (see DESIGN, C04 limits)
+                U = G.Universe(u, spell=rng.choice([0, 2, 3, 5, 6, 8, 9]))
             except Exception as e:
                 self.R.count("universe_rejected:" + type(e).__name__)
                 continue
@@ -50,6 +52,7 @@ class SProducer:
                     types.append(t)
             for t in types:
                 from harness.deser_run import pyrun_reset
+                t = U.canon(t)
                 pyrun_reset()
                 try:
                     U.type(t)
@@ -70,6 +73,7 @@ class SProducer:
         return self.cases
 
     def one(self, U, uidx, u, opts, t, v, tag="gen"):
+        t = U.canon(t)      # one order per set of union alternatives / literal values (typing compares them as sets)
         c = SCase()
         c.uidx, c.u, c.opts, c.t, c.value, c.tag = uidx, u, opts, t, v, tag
         c.vrepr = repr(v)
